@@ -376,7 +376,7 @@ fn run_printer(prop: &str, tier: &str, seed: u64, outdir: &str, only: Option<(&'
         let thorough = tier == "thorough";
         let (nfix, nexh, ngram, nimp) = if thorough { (u64::MAX, u64::MAX, 300_000, 20_000) } else { (6_000, 8_000, 20_000, 2_000) };
         select("corp", universe_size("corp", &fx), u64::MAX, seed, &mut cases);
-        select("nest", nest_universe(), if thorough { u64::MAX } else { 4_000 }, seed, &mut cases);
+        select("nest", nest_universe(), if thorough { u64::MAX } else { 8_000 }, seed, &mut cases);
         select("tab", tab_universe(), if thorough { 200_000 } else { 5_000 }, seed, &mut cases);
         select("nl", NL_U, if thorough { 60_000 } else { 6_000 }, seed, &mut cases);
         select("mut", MUT_U, if thorough { 150_000 } else { 16_000 }, seed, &mut cases);
